@@ -1,5 +1,5 @@
 (* C01 — proofs about the model of C01/Model.v. *)
-From Coq Require Import ZArith String List Bool Lia Permutation.
+From Coq Require Import ZArith String Ascii List Bool Lia Permutation DecimalString.
 From KV Require Import Base.Req Base.ReqProofs Base.K8s C01.Model.
 Import ListNotations.
 Open Scope string_scope.
@@ -660,7 +660,468 @@ Theorem ex_resources_l all ops n0 :
 Proof.
   intros W Hp Hnn n k.
   assert (I : ex_inv (en_remaining n0) n0).
-  { unfold ex_inv. rewrite Hp. repeat split; try (intros ? []); simpl; [intros; lia|exact Hnn]. }
+  { unfold ex_inv. rewrite Hp. split; [intros k0; cbn [map rsum fold_right]; lia|]. split; [exact Hnn|intros q []]. }
   destruct (ex_exec_inv_l all _ ops n0 W I) as (I1 & I0 & _). fold n in I1, I0.
   specialize (I1 k). specialize (I0 k). lia.
 Qed.
+
+(* ================================================================== Preferences.Relax *)
+
+Lemma relaxation_ok_refl p : relaxation_ok p p.
+Proof.
+  unfold relaxation_ok. do 4 (split; [reflexivity|]).
+  split; [exists []; reflexivity|]. split; [intros H; exact H|].
+  do 4 (split; [intros x H; exact H|]).
+  split; [apply Permutation_refl|]. exists []. split; [symmetry; apply app_nil_r|intros t []].
+Qed.
+
+Lemma relaxation_ok_trans a b c : relaxation_ok a b -> relaxation_ok b c -> relaxation_ok a c.
+Proof.
+  intros (A1 & A2 & A3 & A4 & (d1 & A5) & A6 & A7 & A8 & A9 & A10 & A11 & (e1 & A12 & A13))
+         (B1 & B2 & B3 & B4 & (d2 & B5) & B6 & B7 & B8 & B9 & B10 & B11 & (e2 & B12 & B13)).
+  unfold relaxation_ok.
+  split; [congruence|]. split; [congruence|]. split; [congruence|]. split; [congruence|].
+  split; [exists (d1 ++ d2); rewrite A5, B5, app_assoc; reflexivity|].
+  split; [auto|]. split; [auto|]. split; [auto|]. split; [auto|]. split; [auto|].
+  split; [eapply Permutation_trans; eassumption|].
+  exists (e1 ++ e2). split; [rewrite B12, A12, app_assoc; reflexivity|].
+  intros t Ht. apply in_app_or in Ht as [Ht|Ht]; auto.
+Qed.
+
+Lemma in_ins_desc {A} (x y : Z * A) l : List.In x (ins_desc y l) <-> x = y \/ List.In x l.
+Proof.
+  induction l as [|z l IH]; simpl; [intuition|].
+  destruct (fst z <=? fst y); simpl; [intuition|]. rewrite IH. intuition.
+Qed.
+
+Lemma in_sort_desc {A} (x : Z * A) l : List.In x (sort_desc l) <-> List.In x l.
+Proof.
+  unfold sort_desc. induction l as [|y l IH]; simpl; [tauto|]. rewrite in_ins_desc, IH. intuition.
+Qed.
+
+Lemma perm_filter {A} (f : A -> bool) l l' : Permutation l l' -> Permutation (filter f l) (filter f l').
+Proof.
+  induction 1; simpl.
+  - constructor.
+  - destruct (f x); [constructor|]; assumption.
+  - destruct (f x), (f y); try apply Permutation_refl. apply perm_swap.
+  - eapply Permutation_trans; eassumption.
+Qed.
+
+Lemma last_removelast_perm {A} (b : list A) d : b <> [] -> Permutation (last b d :: removelast b) b.
+Proof.
+  intros H. rewrite (app_removelast_last d H) at 3. apply Permutation_cons_append.
+Qed.
+
+(* removeTopologySpreadScheduleAnyway removes exactly one ScheduleAnyway constraint and only reorders the others *)
+Lemma tsc_remove_spec l l' : tsc_remove l = Some l' ->
+  exists c, snd c = true /\ Permutation (c :: l') l.
+Proof.
+  revert l'. induction l as [|c t IH]; intros l'; simpl; [discriminate|].
+  destruct (snd c) eqn:Sc.
+  - intros [= <-]. exists c. split; [exact Sc|]. constructor.
+    destruct t as [|y t']; [constructor|]. apply last_removelast_perm. discriminate.
+  - destruct (tsc_remove t) as [l0|] eqn:E; [|discriminate]. simpl. intros [= <-].
+    destruct (IH l0 eq_refl) as (c0 & Hc0 & Hp). exists c0. split; [exact Hc0|].
+    eapply Permutation_trans; [apply perm_swap|]. constructor. exact Hp.
+Qed.
+
+Ltac rok_start := unfold relaxation_ok;
+  cbn [with_req with_pref with_paff with_panti with_tsc with_tols p_key p_sel p_req p_pref p_paff p_panti p_tsc p_tols p_ports p_requests];
+  do 4 (split; [reflexivity|]).
+Ltac rok_same := intros ? H; exact H.
+Ltac rok_tols_same := exists []; split; [symmetry; apply app_nil_r|intros ? []].
+
+Lemma ok_with_req p x rest : p_req p = x :: rest -> rest <> [] -> relaxation_ok p (with_req p rest).
+Proof.
+  intros E Hne. rok_start. split; [exists [x]; exact E|]. split; [intros _; exact Hne|].
+  do 4 (split; [rok_same|]). split; [apply Permutation_refl|rok_tols_same].
+Qed.
+Lemma ok_with_paff p l : (forall z, List.In z l -> List.In z (p_paff p)) -> relaxation_ok p (with_paff p l).
+Proof.
+  intros Hl. rok_start. split; [exists []; reflexivity|]. split; [intros H; exact H|].
+  split; [rok_same|]. split; [exact Hl|]. do 2 (split; [rok_same|]). split; [apply Permutation_refl|rok_tols_same].
+Qed.
+Lemma ok_with_panti p l : (forall z, List.In z l -> List.In z (p_panti p)) -> relaxation_ok p (with_panti p l).
+Proof.
+  intros Hl. rok_start. split; [exists []; reflexivity|]. split; [intros H; exact H|].
+  do 2 (split; [rok_same|]). split; [exact Hl|]. split; [rok_same|]. split; [apply Permutation_refl|rok_tols_same].
+Qed.
+Lemma ok_with_pref p l : (forall z, List.In z l -> List.In z (p_pref p)) -> relaxation_ok p (with_pref p l).
+Proof.
+  intros Hl. rok_start. split; [exists []; reflexivity|]. split; [intros H; exact H|].
+  split; [exact Hl|]. do 3 (split; [rok_same|]). split; [apply Permutation_refl|rok_tols_same].
+Qed.
+Lemma ok_with_tsc p l : (forall z, List.In z l -> List.In z (p_tsc p)) ->
+  Permutation (filter (fun c => negb (snd c)) l) (filter (fun c => negb (snd c)) (p_tsc p)) -> relaxation_ok p (with_tsc p l).
+Proof.
+  intros Hl Hp. rok_start. split; [exists []; reflexivity|]. split; [intros H; exact H|].
+  do 3 (split; [rok_same|]). split; [exact Hl|]. split; [exact Hp|rok_tols_same].
+Qed.
+Lemma ok_with_tols p : relaxation_ok p (with_tols p (p_tols p ++ [pns_toleration])).
+Proof.
+  rok_start. split; [exists []; reflexivity|]. split; [intros H; exact H|].
+  do 4 (split; [rok_same|]). split; [apply Permutation_refl|].
+  exists [pns_toleration]. split; [reflexivity|]. intros t [<-|[]]. reflexivity.
+Qed.
+
+Lemma sort_desc_tail {A} (l : list (Z * A)) a rest : sort_desc l = a :: rest -> forall z, List.In z rest -> List.In z l.
+Proof. intros E z Hz. apply in_sort_desc. rewrite E. right. exact Hz. Qed.
+
+Lemma relax_soft_ok tp p p' :
+  match sort_desc (p_paff p) with
+  | _ :: rest => Some (with_paff p rest)
+  | [] =>
+  match sort_desc (p_panti p) with
+  | _ :: rest => Some (with_panti p rest)
+  | [] =>
+  match sort_desc (p_pref p) with
+  | _ :: rest => Some (with_pref p rest)
+  | [] =>
+  match tsc_remove (p_tsc p) with
+  | Some l => Some (with_tsc p l)
+  | None =>
+      if tp && negb (existsb (fun t => tol_eqb t pns_toleration) (p_tols p))
+      then Some (with_tols p (p_tols p ++ [pns_toleration]))
+      else None
+  end end end end = Some p' -> relaxation_ok p p'.
+Proof.
+  destruct (sort_desc (p_paff p)) as [|a la] eqn:Ea; [|intros [= <-]; apply ok_with_paff, (sort_desc_tail _ _ _ Ea)].
+  destruct (sort_desc (p_panti p)) as [|b lb] eqn:Eb; [|intros [= <-]; apply ok_with_panti, (sort_desc_tail _ _ _ Eb)].
+  destruct (sort_desc (p_pref p)) as [|c lc] eqn:Ec; [|intros [= <-]; apply ok_with_pref, (sort_desc_tail _ _ _ Ec)].
+  destruct (tsc_remove (p_tsc p)) as [lt|] eqn:Et.
+  - intros [= <-]. destruct (tsc_remove_spec _ _ Et) as (c0 & Hc0 & Hp). apply ok_with_tsc.
+    + intros z Hz. apply (Permutation_in z Hp). right. exact Hz.
+    + pose proof (perm_filter (fun c => negb (snd c)) _ _ Hp) as Hf. cbn [filter] in Hf. rewrite Hc0 in Hf. exact Hf.
+  - destruct (tp && negb (existsb (fun t => tol_eqb t pns_toleration) (p_tols p))); [|discriminate].
+    intros [= <-]. apply ok_with_tols.
+Qed.
+
+Lemma relax_step_ok tp p p' : relax tp p = Some p' -> relaxation_ok p p'.
+Proof.
+  unfold relax. destruct (p_req p) as [|x [|y rest]] eqn:Er.
+  - apply (relax_soft_ok tp).
+  - apply (relax_soft_ok tp).
+  - intros [= <-]. apply (ok_with_req p x (y :: rest) Er). discriminate.
+Qed.
+
+Theorem relax_only_weakens_l tp n : forall p, relaxation_ok p (relax_n tp n p).
+Proof.
+  induction n as [|n IH]; intros p; simpl; [apply relaxation_ok_refl|].
+  destruct (relax tp p) as [p'|] eqn:E; [|apply relaxation_ok_refl].
+  eapply relaxation_ok_trans; [apply (relax_step_ok tp _ _ E)|apply IH].
+Qed.
+
+(* the first required term of a relaxed pod is one of the ORIGINAL required terms, and relaxation never
+   leaves a pod that had required terms without one *)
+Lemma relaxed_head_original orig rel t rest :
+  relaxation_ok orig rel -> p_req rel = t :: rest -> List.In t (p_req orig).
+Proof.
+  intros (_ & _ & _ & _ & (d & E) & _) Hr. rewrite E, Hr. apply in_or_app. right. left. reflexivity.
+Qed.
+
+Lemma relaxed_keeps_required orig rel :
+  relaxation_ok orig rel -> p_req orig <> [] -> p_req rel <> [].
+Proof. intros (_ & _ & _ & _ & _ & H & _). exact H. Qed.
+
+(* ================================================================== the oracle decides the specification *)
+
+Lemma empty_b_spec e : wf e -> (empty_b e = true <-> forall v, has e v = false).
+Proof.
+  intros [Wg Wl]. unfold empty_b. destruct (compl e) eqn:C.
+  - fold (empty_bounds (gte e) (lte e)). split.
+    + intros H v. unfold has. rewrite (within_empty v _ _ H). apply andb_false_r.
+    + intros H. destruct (empty_bounds (gte e) (lte e)) eqn:E; [reflexivity|]. exfalso.
+      destruct (fresh_within (vals e) (gte e) (lte e) Wg Wl E) as (v & Hm & Hw).
+      specialize (H v). unfold has in H. rewrite C, Hm, Hw in H. discriminate.
+  - split.
+    + intros H v. apply negb_true_iff in H. destruct (has e v) eqn:Hv; [|reflexivity]. exfalso.
+      assert (X : existsb (has e) (vals e) = true).
+      { apply existsb_exists. exists v. split; [|exact Hv]. unfold has in Hv. rewrite C in Hv. apply andb_prop in Hv as [Hv _]. apply mem_In, Hv. }
+      rewrite X in H. discriminate.
+    + intros H. apply negb_true_iff. destruct (existsb (has e) (vals e)) eqn:E; [|reflexivity].
+      apply existsb_exists in E as (v & _ & Hv). rewrite H in Hv. discriminate.
+Qed.
+
+Definition zwithin (z : Z) (g l : option Z) : Prop :=
+  (match g with Some a => a <= z | None => True end) /\ (match l with Some b => z <= b | None => True end).
+
+(* a complement requirement admits some spelling of every int64 inside its bounds *)
+Lemma compl_has_numeral e z : compl e = true -> in64 z = true -> zwithin z (gte e) (lte e) ->
+  exists v, atoi v = Some z /\ has e v = true.
+Proof.
+  intros C Hz [Hg Hl]. destruct (fresh_numeral (vals e) z Hz) as (v & Hv & Hm). exists v. split; [exact Hv|].
+  unfold has, within. rewrite C, Hm, Hv. cbn [negb andb].
+  destruct (gte e) as [a|], (lte e) as [b|]; try reflexivity;
+    repeat rewrite andb_true_iff; repeat split; try reflexivity; apply Z.leb_le; assumption.
+Qed.
+
+Lemma atoi_x s : atoi (String "x"%char s) = None.
+Proof.
+  unfold atoi, atoi_raw. cbn [Ascii.eqb Bool.eqb]. unfold udec. cbn [NilEmpty.uint_of_string].
+  destruct (NilEmpty.uint_of_string s); reflexivity.
+Qed.
+
+(* an unbounded complement requirement admits a non-numeric value *)
+Lemma compl_unbounded_nonnumeric e : compl e = true -> gte e = None -> lte e = None ->
+  exists v, atoi v = None /\ has e v = true.
+Proof.
+  intros C G L. exists (String "x"%char (zeros (maxlen (vals e)) "x")). split; [apply atoi_x|].
+  unfold has, within. rewrite C, G, L. rewrite andb_true_r. apply negb_true_iff.
+  destruct (mem _ (vals e)) eqn:M; [|reflexivity]. apply mem_maxlen in M. cbn [String.length] in M. rewrite length_zeros in M. cbn [String.length] in M. lia.
+Qed.
+
+Lemma has_compl_bounds e v : compl e = true -> has e v = true ->
+  match gte e, lte e with
+  | None, None => True
+  | _, _ => exists n, atoi v = Some n /\ zwithin n (gte e) (lte e)
+  end.
+Proof.
+  intros C H. unfold has in H. apply andb_prop in H as [_ H]. unfold within in H.
+  destruct (gte e) as [a|] eqn:G, (lte e) as [b|] eqn:L; try exact I;
+  (destruct (atoi v) as [n|]; [|discriminate]); exists n; (split; [reflexivity|]); unfold zwithin;
+  rewrite ?andb_true_iff, ?andb_true_r in H; rewrite ?Z.leb_le in H; tauto.
+Qed.
+
+Lemma in64_bounds z : in64 z = true <-> min64 <= z <= max64.
+Proof. unfold in64. rewrite andb_true_iff, !Z.leb_le. tauto. Qed.
+
+Lemma all_values_b_spec e o vs : wf e -> valid_args o vs = true -> empty_b e = false ->
+  (all_values_b e o vs = true <-> forall v, has e v = true -> k8s_match o vs (Some v) = true).
+Proof.
+  intros W Hv Hne. pose proof W as [Wg Wl]. unfold all_values_b. destruct (compl e) eqn:C.
+  2:{ rewrite forallb_forall. split.
+      - intros H v Hh. assert (Hin : List.In v (vals e)).
+        { unfold has in Hh. rewrite C in Hh. apply andb_prop in Hh as [Hh _]. apply mem_In, Hh. }
+        specialize (H v Hin). rewrite Hh in H. exact H.
+      - intros H v _. destruct (has e v) eqn:Hh; [|reflexivity]. cbn [negb orb]. apply H, Hh. }
+  assert (Hbounds : empty_bounds (gte e) (lte e) = false).
+  { unfold empty_b in Hne. rewrite C in Hne. exact Hne. }
+  (* witnesses inside the bounds *)
+  assert (Hwit : forall z, in64 z = true -> zwithin z (gte e) (lte e) -> exists v, atoi v = Some z /\ has e v = true)
+    by (intros z; apply compl_has_numeral, C).
+  destruct o; cbn [k8s_match].
+  - (* In *) split; [discriminate|]. intros H. exfalso.
+    destruct (fresh_within (vals e ++ vs) (gte e) (lte e) Wg Wl Hbounds) as (v & Hm & Hw).
+    rewrite mem_app in Hm. apply orb_false_elim in Hm as [Hm1 Hm2].
+    assert (Hh : has e v = true) by (unfold has; rewrite C, Hm1, Hw; reflexivity).
+    specialize (H v Hh). rewrite Hm2 in H. discriminate.
+  - (* NotIn *) rewrite forallb_forall. split.
+    + intros H v Hh. destruct (mem v vs) eqn:M; [|reflexivity]. apply mem_In in M. specialize (H v M). rewrite Hh in H. discriminate.
+    + intros H v Hin. destruct (has e v) eqn:Hh; [|reflexivity]. specialize (H v Hh). apply mem_In in Hin. rewrite Hin in H. discriminate.
+  - (* Exists *) split; intros; reflexivity.
+  - (* DoesNotExist *) split; [discriminate|]. intros H. exfalso.
+    destruct (fresh_within (vals e) (gte e) (lte e) Wg Wl Hbounds) as (v & Hm & Hw).
+    assert (Hh : has e v = true) by (unfold has; rewrite C, Hm, Hw; reflexivity). specialize (H v Hh). discriminate.
+  - (* Gt *) cbn [valid_args] in Hv. destruct vs as [|b [|? ?]]; try discriminate. destruct (atoi b) as [m|] eqn:Eb; [|discriminate].
+    pose proof (proj1 (in64_bounds m) (atoi_in64 b m Eb)) as Hm. unfold num_arg. rewrite Eb. unfold cmp_match. rewrite Eb.
+    unfold empty_bounds in Hbounds. split.
+    + destruct (gte e) as [g|] eqn:G; [|discriminate]. intros H v Hh. apply Z.ltb_lt in H.
+      pose proof (has_compl_bounds e v C Hh) as Hb. rewrite G in Hb. destruct (lte e); destruct Hb as (n & Hn & Hz & _); rewrite Hn; apply Z.ltb_lt; lia.
+    + intros H. destruct (gte e) as [g|] eqn:G.
+      * apply Z.ltb_lt. destruct (Z.lt_ge_cases m g) as [Hlt|Hge]; [exact Hlt|]. exfalso.
+        pose proof (proj1 (in64_bounds g) Wg) as Hg. simpl in Hg.
+        destruct (Hwit g Wg) as (v & Hn & Hh).
+        { split; [lia|]. destruct (lte e) as [l|]; [|exact I]. apply Z.ltb_ge in Hbounds. lia. }
+        specialize (H v Hh). rewrite Hn in H. apply Z.ltb_lt in H. lia.
+      * exfalso. destruct (lte e) as [l|] eqn:L.
+        -- pose proof (proj1 (in64_bounds l) Wl) as Hl. destruct (Hwit (Z.min l m)) as (v & Hn & Hh).
+           { apply in64_bounds. lia. } { split; [exact I|lia]. }
+           specialize (H v Hh). rewrite Hn in H. apply Z.ltb_lt in H. lia.
+        -- destruct (Hwit m (atoi_in64 b m Eb)) as (v & Hn & Hh); [split; exact I|].
+           specialize (H v Hh). rewrite Hn in H. apply Z.ltb_lt in H. lia.
+  - (* Lt *) cbn [valid_args] in Hv. destruct vs as [|b [|? ?]]; try discriminate. destruct (atoi b) as [m|] eqn:Eb; [|discriminate].
+    pose proof (proj1 (in64_bounds m) (atoi_in64 b m Eb)) as Hm. unfold num_arg. rewrite Eb. unfold cmp_match. rewrite Eb.
+    unfold empty_bounds in Hbounds. split.
+    + destruct (lte e) as [l|] eqn:L; [|destruct (gte e); discriminate]. intros H v Hh.
+      assert (H' : l < m) by (destruct (gte e); apply Z.ltb_lt, H).
+      pose proof (has_compl_bounds e v C Hh) as Hb. rewrite L in Hb. destruct (gte e); destruct Hb as (n & Hn & _ & Hz); rewrite Hn; apply Z.ltb_lt; lia.
+    + intros H. destruct (lte e) as [l|] eqn:L.
+      * assert (X : l < m).
+        { destruct (Z.lt_ge_cases l m) as [Hlt|Hge]; [exact Hlt|]. exfalso.
+          pose proof (proj1 (in64_bounds l) Wl) as Hl. simpl in Hl.
+          destruct (Hwit l Wl) as (v & Hn & Hh).
+          { split; [|lia]. destruct (gte e) as [g|]; [|exact I]. apply Z.ltb_ge in Hbounds. lia. }
+          specialize (H v Hh). rewrite Hn in H. apply Z.ltb_lt in H. lia. }
+        destruct (gte e); apply Z.ltb_lt, X.
+      * exfalso. destruct (gte e) as [g|] eqn:G.
+        -- pose proof (proj1 (in64_bounds g) Wg) as Hg. destruct (Hwit (Z.max g m)) as (v & Hn & Hh).
+           { apply in64_bounds. lia. } { split; [lia|exact I]. }
+           specialize (H v Hh). rewrite Hn in H. apply Z.ltb_lt in H. lia.
+        -- destruct (Hwit m (atoi_in64 b m Eb)) as (v & Hn & Hh); [split; exact I|].
+           specialize (H v Hh). rewrite Hn in H. apply Z.ltb_lt in H. lia.
+  - (* Gte *) cbn [valid_args] in Hv. destruct vs as [|b [|? ?]]; try discriminate. destruct (atoi b) as [m|] eqn:Eb; [|discriminate].
+    pose proof (proj1 (in64_bounds m) (atoi_in64 b m Eb)) as Hm. unfold num_arg. rewrite Eb. unfold cmp_match. rewrite Eb.
+    unfold empty_bounds in Hbounds. split.
+    + intros H v Hh. pose proof (has_compl_bounds e v C Hh) as Hb.
+      destruct (gte e) as [g|] eqn:G.
+      * apply Z.leb_le in H. destruct (lte e); destruct Hb as (n & Hn & Hz & _); rewrite Hn; apply Z.leb_le; lia.
+      * destruct (lte e) as [l|] eqn:L; [|discriminate]. apply Z.eqb_eq in H. destruct Hb as (n & Hn & _). rewrite Hn.
+        pose proof (proj1 (in64_bounds n) (atoi_in64 v n Hn)). apply Z.leb_le. lia.
+    + intros H. destruct (gte e) as [g|] eqn:G.
+      * apply Z.leb_le. destruct (Z.le_gt_cases m g) as [Hle|Hgt]; [exact Hle|]. exfalso.
+        pose proof (proj1 (in64_bounds g) Wg) as Hg. simpl in Hg.
+        destruct (Hwit g Wg) as (v & Hn & Hh).
+        { split; [lia|]. destruct (lte e) as [l|]; [|exact I]. apply Z.ltb_ge in Hbounds. lia. }
+        specialize (H v Hh). rewrite Hn in H. apply Z.leb_le in H. lia.
+      * destruct (lte e) as [l|] eqn:L.
+        -- apply Z.eqb_eq. destruct (Z.eq_dec m min64) as [E|Hne']; [exact E|]. exfalso.
+           pose proof (proj1 (in64_bounds l) Wl) as Hl. destruct (Hwit (Z.min l (m - 1))) as (v & Hn & Hh).
+           { apply in64_bounds. unfold min64, max64 in *. lia. } { split; [exact I|lia]. }
+           specialize (H v Hh). rewrite Hn in H. apply Z.leb_le in H. lia.
+        -- exfalso. destruct (compl_unbounded_nonnumeric e C G L) as (v & Hn & Hh).
+           specialize (H v Hh). rewrite Hn in H. discriminate.
+  - (* Lte *) cbn [valid_args] in Hv. destruct vs as [|b [|? ?]]; try discriminate. destruct (atoi b) as [m|] eqn:Eb; [|discriminate].
+    pose proof (proj1 (in64_bounds m) (atoi_in64 b m Eb)) as Hm. unfold num_arg. rewrite Eb. unfold cmp_match. rewrite Eb.
+    unfold empty_bounds in Hbounds. split.
+    + intros H v Hh. pose proof (has_compl_bounds e v C Hh) as Hb.
+      destruct (lte e) as [l|] eqn:L.
+      * apply Z.leb_le in H. destruct (gte e); destruct Hb as (n & Hn & _ & Hz); rewrite Hn; apply Z.leb_le; lia.
+      * destruct (gte e) as [g|] eqn:G; [|discriminate]. apply Z.eqb_eq in H. destruct Hb as (n & Hn & _). rewrite Hn.
+        pose proof (proj1 (in64_bounds n) (atoi_in64 v n Hn)). apply Z.leb_le. lia.
+    + intros H. destruct (lte e) as [l|] eqn:L.
+      * apply Z.leb_le. destruct (Z.le_gt_cases l m) as [Hle|Hgt]; [exact Hle|]. exfalso.
+        pose proof (proj1 (in64_bounds l) Wl) as Hl. simpl in Hl.
+        destruct (Hwit l Wl) as (v & Hn & Hh).
+        { split; [|lia]. destruct (gte e) as [g|]; [|exact I]. apply Z.ltb_ge in Hbounds. lia. }
+        specialize (H v Hh). rewrite Hn in H. apply Z.leb_le in H. lia.
+      * destruct (gte e) as [g|] eqn:G.
+        -- apply Z.eqb_eq. destruct (Z.eq_dec m max64) as [E|Hne']; [exact E|]. exfalso.
+           pose proof (proj1 (in64_bounds g) Wg) as Hg. destruct (Hwit (Z.max g (m + 1))) as (v & Hn & Hh).
+           { apply in64_bounds. unfold min64, max64 in *. lia. } { split; [lia|exact I]. }
+           specialize (H v Hh). rewrite Hn in H. apply Z.leb_le in H. lia.
+        -- exfalso. destruct (compl_unbounded_nonnumeric e C G L) as (v & Hn & Hh).
+           specialize (H v Hh). rewrite Hn in H. discriminate.
+Qed.
+
+Lemma sat_all_b_spec e o vs : wf e -> valid_args o vs = true ->
+  (sat_all_b e o vs = true <-> sat_all e o vs).
+Proof.
+  intros W Hv. unfold sat_all_b, sat_all. destruct (empty_b e) eqn:E.
+  - pose proof (proj1 (empty_b_spec e W) E) as He. split.
+    + intros H [v|] Hm; simpl in Hm; [rewrite He in Hm; discriminate|exact H].
+    + intros H. apply (H None). exact He.
+  - rewrite (all_values_b_spec e o vs W Hv E). split.
+    + intros H [v|] Hm; simpl in Hm; [apply H, Hm|].
+      apply (empty_b_spec e W) in Hm. rewrite Hm in E. discriminate.
+    + intros H v Hh. apply (H (Some v)). exact Hh.
+Qed.
+
+Lemma sat_all_ob_spec e o vs : (forall x, e = Some x -> wf x) -> valid_args o vs = true ->
+  (sat_all_ob e o vs = true <-> sat_all_o e o vs).
+Proof.
+  intros W Hv. destruct e as [x|]; simpl; [apply sat_all_b_spec; [apply W; reflexivity|exact Hv]|].
+  destruct o; try (split; [discriminate|]; intros H).
+  - specialize (H None). discriminate.
+  - destruct vs as [|x t]; [split; intros; [destruct lbl; reflexivity|reflexivity]|].
+    split; [discriminate|]. intros H. specialize (H (Some x)). simpl in H. rewrite String.eqb_refl in H. discriminate.
+  - specialize (H None). discriminate.
+  - specialize (H (Some EmptyString)). discriminate.
+  - specialize (H None). discriminate.
+  - specialize (H None). discriminate.
+  - specialize (H None). discriminate.
+  - specialize (H None). discriminate.
+Qed.
+
+Definition eff_wf (eff : string -> option req) : Prop := forall k x, eff k = Some x -> wf x.
+Definition pod_valid (p : pod) : Prop := forall t, List.In t (p_req p) -> valid_term t.
+
+Lemma labels_ok_b_spec eff p : eff_wf eff -> pod_valid p -> (labels_ok_b eff p = true <-> labels_ok eff p).
+Proof.
+  intros We Wp. unfold labels_ok_b, labels_ok. rewrite andb_true_iff, forallb_forall.
+  assert (Hsel : forall kv : string * string, sat_all_ob (eff (fst kv)) In [snd kv] = true <-> sat_all_o (eff (fst kv)) In [snd kv]).
+  { intros kv. apply sat_all_ob_spec; [intros x E; apply (We _ _ E)|reflexivity]. }
+  assert (Hterm : forall t, List.In t (p_req p) -> (forallb (expr_ok_b eff) t = true <-> forall x, List.In x t -> expr_ok eff x)).
+  { intros t Ht. rewrite forallb_forall. split; intros H [[k o] vs] Hx; specialize (H _ Hx); unfold expr_ok_b, expr_ok in *;
+      apply (sat_all_ob_spec (eff k) o vs (fun x E => We _ _ E) (Wp t Ht k o vs Hx)); exact H. }
+  split.
+  - intros [H1 H2]. split; [intros kv Hin; apply Hsel, H1, Hin|].
+    destruct (p_req p) as [|t0 ts] eqn:Er; [left; reflexivity|right].
+    apply existsb_exists in H2 as (t & Ht & Hf). exists t. split; [exact Ht|]. apply (Hterm t Ht), Hf.
+  - intros [H1 H2]. split; [intros kv Hin; apply Hsel, H1, Hin|].
+    destruct H2 as [E|(t & Ht & Hf)]; [rewrite E; reflexivity|].
+    destruct (p_req p) as [|t0 ts] eqn:Er; [reflexivity|]. apply existsb_exists. exists t. split; [exact Ht|]. apply (Hterm t Ht), Hf.
+Qed.
+
+(* the boolean oracle evaluated by the check is the specification *)
+Theorem admissible_b_spec_l v ps : eff_wf (v_eff v) -> Forall pod_valid ps ->
+  (admissible_b v ps = true <-> admissible v ps).
+Proof.
+  intros We Wp. unfold admissible_b, admissible. rewrite !andb_true_iff, forallb_forall, ports_ok_b_spec, resources_ok_b_spec.
+  rewrite Forall_forall in Wp. split.
+  - intros [[H1 H2] H3]. split; [|split; assumption]. intros p Hp. specialize (H1 p Hp). apply andb_prop in H1 as [Ha Hb].
+    split; [apply (labels_ok_b_spec _ _ We (Wp p Hp)), Ha|apply k8s_tolerated_b_spec, Hb].
+  - intros [H1 [H2 H3]]. split; [split; [|exact H2]|exact H3]. intros p Hp. destruct (H1 p Hp) as [Ha Hb].
+    apply andb_true_intro. split; [apply (labels_ok_b_spec _ _ We (Wp p Hp)), Ha|apply k8s_tolerated_b_spec, Hb].
+Qed.
+
+(* ================================================================== findings: refutations on the faithful model *)
+
+Definition claim0 (r : reqs) : nclaim := mkNC [] r [] [] [] [].
+
+(* F11: required `team In [a]` with the preference `team In [c]`: the pod's own requirement for the key is empty,
+   is stored as DoesNotExist and passes Compatible on a claim that does not define the key *)
+Definition f11_pod : pod :=
+  mkPod "default/w1" [] [[("team", In, ["a"])]] [(1, [("team", In, ["c"])])] [] [] [] [] [] [("cpu", 500)].
+
+Lemma f11_compatible : compatible [] [] (pod_reqs true f11_pod) = true /\
+  (forall v, has (get (add [] (pod_reqs true f11_pod)) "team") v = false) /\
+  k8s_match In ["a"] None = false.
+Proof.
+  split; [vm_compute; reflexivity|]. split; [|reflexivity]. intros v.
+  assert (E : get (add [] (pod_reqs true f11_pod)) "team" = mkReq false [] None None None) by (vm_compute; reflexivity).
+  rewrite E. reflexivity.
+Qed.
+
+(* F12: an existing node without a `team` label; `team NotIn [a]` then `team In [b]` are both accepted *)
+Definition f12_node : enode := mkEN [] [("zone", new_req In None ["z1"])] [("cpu", 4000)] [] [].
+Definition f12_p1 : pod := mkPod "default/w3" [] [[("team", NotIn, ["a"])]] [] [] [] [] [] [] [("cpu", 300)].
+Definition f12_p2 : pod := mkPod "default/w4" [] [[("team", In, ["b"])]] [] [] [] [] [] [] [("cpu", 200)].
+
+Lemma f12_accepted :
+  let n := ex_exec true f12_node [f12_p1; f12_p2] in
+  map p_key (en_pods n) = ["default/w3"; "default/w4"] /\
+  labels_ok_b (eff_labels [("zone", "z1")]) f12_p2 = false.
+Proof. vm_compute. split; reflexivity. Qed.
+
+(* and the same node rejects the second pod when it comes first *)
+Lemma f12_order : map p_key (en_pods (ex_exec true f12_node [f12_p2; f12_p1])) = ["default/w3"].
+Proof. vm_compute. reflexivity. Qed.
+
+(* F13: ExistingNode.CanAdd never looks at the host ports of daemons that are still to arrive *)
+Definition f13_pod : pod := mkPod "default/w5" [] [] [] [] [] [] [] [mkHP "0.0.0.0" 8080 "TCP"] [("cpu", 200)].
+Definition f13_daemon : pod := mkPod "default/ds" [] [] [] [] [] [] [mkTol "" "Exists" "" ""] [mkHP "0.0.0.0" 8080 "TCP"] [("cpu", 100)].
+
+Lemma f13_accepted :
+  map p_key (en_pods (ex_exec true f12_node [f13_pod])) = ["default/w5"] /\
+  existing_admissible_b [("zone", "z1")] [] [("cpu", 4000)] [] [f13_pod] [f13_daemon] = false.
+Proof. vm_compute. split; reflexivity. Qed.
+
+(* F11 at step level: the real step function places the pod, the claim then requires `team DoesNotExist`, and the
+   pod's only required term `team In [a]` fails for the label state the node will have *)
+Definition f11_it : itype := mkIT "it" [] [([("cpu", 1000)], [[]])].
+Definition f11_claim : nclaim := mkNC [] [] ["it"] [] [mkDG ["it"] [] []] [].
+
+Lemma f11_step :
+  let n := fst (nc_step [] [f11_it] true false f11_claim f11_pod) in
+  map p_key (nc_pods n) = ["default/w1"] /\ nc_its n = ["it"] /\
+  labels_ok_b (eff_new [] (nc_reqs n) [] []) f11_pod = false.
+Proof. vm_compute. repeat split; reflexivity. Qed.
+
+(* non-vacuity: two pods on one claim, the second narrows the options *)
+Definition ex_it1 : itype := mkIT "small" [("zone", new_req In None ["z1"; "z2"])] [([("cpu", 1000); ("pods", 4000)], [[("zone", new_req In None ["z1"])]])].
+Definition ex_it2 : itype := mkIT "big" [("zone", new_req In None ["z1"])] [([("cpu", 4000); ("pods", 4000)], [[("zone", new_req In None ["z1"])]])].
+Definition ex_claim : nclaim := mkNC [mkTaint "dedicated" "x" "NoSchedule"] [] ["small"; "big"] [] [mkDG ["small"; "big"] [("cpu", 100); ("pods", 1000)] []] [].
+Definition ex_pod (name : string) (cpu : Z) : pod :=
+  mkPod name [("zone", "z1")] [] [] [] [] [] [mkTol "dedicated" "Exists" "" ""] [] [("cpu", cpu); ("pods", 1000)].
+
+Lemma example_two_pods :
+  let n := nc_exec ["zone"] [ex_it1; ex_it2] true ex_claim [(ex_pod "a" 600, false); (ex_pod "b" 600, false)] in
+  map p_key (nc_pods n) = ["a"; "b"] /\ nc_its n = ["big"] /\ nc_requests n = [("cpu", 1200); ("pods", 2000)].
+Proof. vm_compute. repeat split; reflexivity. Qed.
+
+Lemma example_relax :
+  let p := mkPod "p" [] [[("a", In, ["1"])]; [("b", In, ["2"])]] [(5, [("c", Exists, [])])] [] [] [("zone", true); ("host", false)] [] [] [] in
+  p_req (relax_n true 10 p) = [[("b", In, ["2"])]] /\ p_pref (relax_n true 10 p) = [] /\
+  p_tsc (relax_n true 10 p) = [("host", false)] /\ p_tols (relax_n true 10 p) = [pns_toleration].
+Proof. vm_compute. repeat split; reflexivity. Qed.
